@@ -6,5 +6,6 @@ DST=/verif/seeded/$ID
 mkdir -p "$DST"
 cp "$SRC"/patch.diff "$SRC"/demo.txt "$DST"/
 cp "$SRC"/*.rs "$DST"/
+[ -f "$SRC/patch.orig.diff" ] && cp "$SRC/patch.orig.diff" "$DST"/
 [ -f "$SRC/notes.md" ] && cp "$SRC/notes.md" "$DST/agent_notes.md"
 /verif/tools/seed_confirm.sh "$DST" "${3:-}"
